@@ -368,3 +368,140 @@ Proof.
     rewrite <- (map_id (snd ia)) at 2. apply map_ext. intros t. apply subst_self.
   - destruct getter; [rewrite T1|rewrite T2]; apply map_ext; intros a; apply acc_method_self.
 Qed.
+
+(* --------------------------------- completeness of the embedded accessor interfaces *)
+Lemma loop_app : forall pkg v fuel G S l1 l2 a,
+  make_getset_loop pkg v fuel G S (l1 ++ l2) a = make_getset_loop pkg v fuel G S l2 (make_getset_loop pkg v fuel G S l1 a).
+Proof.
+  intros pkg v fuel G S l1. induction l1 as [|f r IH]; intros l2 a; [reflexivity|].
+  cbn [app make_getset_loop]. destruct (existsb (String.eqb (f_name f)) (ga_once a)); [apply IH|].
+  destruct (f_embedded f); apply IH.
+Qed.
+
+Lemma embed_get_mono : forall pkg v fuel f a ia, In ia (ga_geti a) -> In ia (ga_geti (embed_get pkg v fuel f a)).
+Proof.
+  intros. unfold embed_get. destruct (find_iface v (f_name f) true); auto.
+  destruct (assignable_to_iface pkg v fuel (f_ty f) v0 true) as [[args [|]]|]; auto.
+  cbn [ga_geti]. apply in_or_app. left. assumption.
+Qed.
+Lemma embed_set_mono : forall pkg v fuel f a ia, In ia (ga_seti a) -> In ia (ga_seti (embed_set pkg v fuel f a)).
+Proof.
+  intros. unfold embed_set. destruct (find_iface v (f_name f) false); auto.
+  destruct (assignable_to_iface pkg v fuel (f_ty f) v0 false) as [[args [|]]|]; auto.
+  cbn [ga_seti]. apply in_or_app. left. assumption.
+Qed.
+
+Lemma loop_ifaces_mono : forall pkg v fuel G S l a,
+  (forall ia, In ia (ga_geti a) -> In ia (ga_geti (make_getset_loop pkg v fuel G S l a))) /\
+  (forall ia, In ia (ga_seti a) -> In ia (ga_seti (make_getset_loop pkg v fuel G S l a))).
+Proof.
+  intros pkg v fuel G S l. induction l as [|f r IH]; intros a; [split; auto|].
+  cbn [make_getset_loop]. destruct (existsb (String.eqb (f_name f)) (ga_once a)); [apply IH|].
+  destruct (f_embedded f).
+  - set (a0 := add_once (f_name f) a).
+    set (a1 := if G then embed_get pkg v fuel f a0 else a0).
+    set (a2 := if S then embed_set pkg v fuel f a1 else a1).
+    destruct (IH a2) as [I1 I2]. split; intros ia Hia.
+    + apply I1. unfold a2. destruct S.
+      * destruct (embed_set_keeps pkg v fuel f a1) as [_ [_ [_ K]]]. rewrite K.
+        unfold a1. destruct G; [apply embed_get_mono|]; exact Hia.
+      * unfold a1. destruct G; [apply embed_get_mono|]; exact Hia.
+    + apply I2. unfold a2. destruct S.
+      * apply embed_set_mono. unfold a1. destruct G; [|exact Hia].
+        destruct (embed_get_keeps pkg v fuel f a0) as [_ [_ [_ K]]]. rewrite K. exact Hia.
+      * unfold a1. destruct G; [|exact Hia].
+        destruct (embed_get_keeps pkg v fuel f a0) as [_ [_ [_ K]]]. rewrite K. exact Hia.
+  - destruct (IH (if f_set f && S then add_set f (if f_get f && G then add_get f (add_once (f_name f) a) else add_once (f_name f) a)
+                  else (if f_get f && G then add_get f (add_once (f_name f) a) else add_once (f_name f) a))) as [I1 I2].
+    split; intros ia Hia; [apply I1|apply I2]; destruct (f_set f && S), (f_get f && G); exact Hia.
+Qed.
+
+Lemma loop_once : forall pkg v fuel G S l a n,
+  In n (ga_once (make_getset_loop pkg v fuel G S l a)) -> In n (ga_once a) \/ In n (map f_name l).
+Proof.
+  intros pkg v fuel G S l. induction l as [|f r IH]; intros a n H; [left; exact H|].
+  cbn [make_getset_loop] in H. destruct (existsb (String.eqb (f_name f)) (ga_once a)).
+  - destruct (IH a n H); [left|right; right]; auto.
+  - assert (Step : forall a', ga_once a' = f_name f :: ga_once a ->
+              In n (ga_once (make_getset_loop pkg v fuel G S r a')) -> In n (ga_once a) \/ In n (map f_name (f :: r))).
+    { intros a' E H'. destruct (IH a' n H') as [X|X].
+      - rewrite E in X. destruct X as [X|X]; [right; left; exact X|left; exact X].
+      - right. right. exact X. }
+    destruct (f_embedded f).
+    + eapply Step; [|exact H].
+      set (a0 := add_once (f_name f) a).
+      set (a1 := if G then embed_get pkg v fuel f a0 else a0).
+      assert (O1 : ga_once a1 = ga_once a0).
+      { unfold a1. destruct G; auto. destruct (embed_get_keeps pkg v fuel f a0) as [K _]. exact K. }
+      destruct S; [destruct (embed_set_keeps pkg v fuel f a1) as [K _]; rewrite K|]; rewrite O1; reflexivity.
+    + eapply Step; [|exact H]. destruct (f_set f && S), (f_get f && G); reflexivity.
+Qed.
+
+(* every embedded struct entry that is the first entry of its name in the flattened list, whose accessor interface
+   is declared in the view with matching arity and implemented by the pointer to the struct, IS embedded in
+   <T>Getter (when T's type-level directive admits getters) -- the converse of embedded_interfaces *)
+Theorem embedded_interfaces_complete : forall pkg v fl fuel sd fields d nd (getter : bool) l1 f l2 ve args,
+  getset_of pkg v fl fuel sd = COk (fields, d, nd) ->
+  fields = l1 ++ f :: l2 -> f_embedded f = true -> ~ In (f_name f) (map f_name l1) ->
+  (if getter then fst (type_switch fl sd) else snd (type_switch fl sd)) = true ->
+  find_iface v (f_name f) getter = Some ve ->
+  assignable_to_iface pkg v fuel (f_ty f) ve getter = Some (args, true) ->
+  In (f_name f, args) (if getter then gs_get_ifaces d else gs_set_ifaces d).
+Proof.
+  intros pkg v fl fuel sd fields d nd getter l1 f l2 ve args H E Femb First SW FI AS.
+  unfold getset_of in H. destruct (flatten pkg fl fuel sd) as [[fs hn]| |]; try discriminate.
+  injection H as H1 H2 H3. subst d nd. rewrite <- H1 in E. clear H1.
+  unfold make_getset. destruct (type_switch fl sd) as [G S]. cbn [fst snd] in SW.
+  cbn [gs_get_ifaces gs_set_ifaces]. rewrite E, loop_app.
+  set (a1 := make_getset_loop pkg v fuel G S l1 empty_gs_acc).
+  assert (NO : existsb (String.eqb (f_name f)) (ga_once a1) = false).
+  { apply not_true_is_false. intros T. apply existsb_eqb_in in T.
+    destruct (loop_once _ _ _ _ _ _ _ _ T) as [X|X]; [destruct X|exact (First X)]. }
+  cbn [make_getset_loop]. rewrite NO, Femb.
+  set (a0 := add_once (f_name f) a1).
+  destruct (loop_ifaces_mono pkg v fuel G S l2
+              (if S then embed_set pkg v fuel f (if G then embed_get pkg v fuel f a0 else a0)
+               else (if G then embed_get pkg v fuel f a0 else a0))) as [M1 M2].
+  destruct getter.
+  - apply M1. subst G.
+    assert (In (f_name f, args) (ga_geti (embed_get pkg v fuel f a0))).
+    { unfold embed_get. rewrite FI, AS. cbn [ga_geti]. apply in_or_app. right. left. reflexivity. }
+    destruct S; [destruct (embed_set_keeps pkg v fuel f (embed_get pkg v fuel f a0)) as [_ [_ [_ K]]]; rewrite K|]; exact H.
+  - apply M2. subst S. unfold embed_set. rewrite FI, AS. cbn [ga_seti]. apply in_or_app. right. left. reflexivity.
+Qed.
+
+(* ------------------------------------------------ the accessor body selects the struct's own field *)
+Lemma spec_accessor_decl : forall fl sd getter a, In a (spec_accessors fl sd getter) ->
+  exists fd, In fd (sd_fields sd) /\ In (af_name a) (fd_names fd) /\ af_ty a = fd_ty fd.
+Proof.
+  intros fl sd getter a H. unfold spec_accessors in H. apply in_flat_map in H. destruct H as [fd [Hfd H]].
+  apply in_flat_map in H. destruct H as [n [Hn H]].
+  destruct (if getter then fst (wants fl sd fd n) else snd (wants fl sd fd n)); [|destruct H].
+  destruct H as [H|[]]. subst a. exists fd. auto.
+Qed.
+
+Lemma filter_map_comm : forall A B (g : A -> B) (p : B -> bool) l, filter p (map g l) = map g (filter (fun x => p (g x)) l).
+Proof. intros. induction l as [|x r IH]; simpl; auto. destruct (p (g x)); simpl; rewrite IH; reflexivity. Qed.
+
+(* The emitted getter / setter body is `this.<f>` in a method of the declaring struct.  Go's selector rule, applied
+   inside the declaring struct, resolves the name of a table field to that struct's OWN field (depth 0), whatever
+   the struct embeds -- so the body reads / assigns the field the accessor is named after. *)
+Theorem accessor_body_selects_own_field : forall pkg fl fuel sd getter a k,
+  wf_structs pkg fuel sd = true -> In a (spec_accessors fl sd getter) ->
+  resolve pkg (S k) sd (af_name a) = Some [af_name a].
+Proof.
+  intros pkg fl fuel sd getter a k GW Ha.
+  destruct (spec_accessor_decl _ _ _ _ Ha) as [fd [Hfd [Hn Ht]]].
+  assert (ND := top_names_nodup _ _ _ GW).
+  set (tf := (af_name a, fd_ty fd, false) : tfield).
+  assert (Htf : In tf (top_tfields sd)).
+  { unfold top_tfields. apply in_flat_map. exists fd. split; auto. unfold tfields_of_decl.
+    destruct (fd_names fd) as [|x ns]; [destruct Hn|]. apply in_map_iff. exists (af_name a). auto. }
+  unfold resolve. cbn [resolve_from]. unfold candidates. cbn [level]. rewrite struct_fields_self.
+  rewrite filter_map_comm. cbn [snd fst].
+  pose proof (filter_unique _ tf_name (top_tfields sd) tf ND Htf) as FU.
+  unfold tf_name in FU. cbn [fst tf] in FU.
+  match goal with |- context [filter ?p (top_tfields sd)] => change (filter p (top_tfields sd)) with
+    (filter (fun y : tfield => String.eqb (fst (fst y)) (af_name a)) (top_tfields sd)) end.
+  rewrite FU. reflexivity.
+Qed.
